@@ -108,6 +108,14 @@ def analyze_steer(ctx, p, fn, b, bi, t):
             idx_from |= ix[2]
             cont_from = ix[1]
     for dn in d_terms:
+        am = P.argmin_info(ctx, T(dn))
+        if am is not None and am['comp'] == am['dist_comp']:
+            # the distance component of the arg-min that selected the node steered from: distance(cont[idx].state, target)
+            want_idx = T(('field', am['R'], str(am['idx_comp'])))
+            if cont_from == am['cont'] and idx_from == set(want_idx) and strip_clone(am['target']) == strip_clone(tgt):
+                continue
+            probs.append('the distance used for the step ratio belongs to another arg-min than the one that selected the node steered from')
+            continue
         if not (dn[0] == 'call' and dn[1] == DISTANCE and len(dn[2]) == 3):
             probs.append('the divisor is not a distance: %s' % fmt_terms(T(dn))[:60])
             continue
